@@ -19,7 +19,8 @@ RULE = ('batches of seeded random inputs per class: Euler triples with roll/head
         'vectors log-uniform in [1e-12, pi] plus a dense cluster on both sides of |rv|^2 = 1e-6 and exact '
         'zero / pi; non-trivial = not axis-aligned and not one of ~20 sigma-30-degree triples; distinct = '
         'distinct inputs'
-        ' Round 4: the attitude block of the output transform up to a thousandth of a degree from pitch +-90 (finite-difference step and tolerance scaled with cos(pitch)).')
+        ' Round 4: the attitude block of the output transform up to a thousandth of a degree from pitch +-90 (finite-difference step and tolerance scaled with cos(pitch)).'
+        ' Round 5: stacks whose first one to three rows are exactly zero.')
 ASSUMPTIONS = ['mpmath at 40 digits is exact relative to float64',
                'round-trip tolerance scales with 1/cos(pitch) (conditioning of Euler extraction)']
 REQUIRED_OBS = ['stacks_starting_with_zero_rows', 'phi_block_near_singular', 'euler_matrix_mp', 'euler_matrix_float', 'sign_probes', 'roundtrip', 'rotvec_mp',
